@@ -1269,9 +1269,24 @@ swtch:
 	default:
 		return fmt.Errorf("check: %q is not a type", typ.Str(q.tm))
 	}
+	if typ.IsEitherArrayType() {
+		// C compilers reject objects of more than PTRDIFF_MAX bytes. An
+		// element (a number, slice, status, etc) can be 16 bytes or more.
+		n := big.NewInt(1)
+		for x := typ; (x != nil) && x.IsEitherArrayType(); x = x.Inner() {
+			n.Mul(n, x.ArrayLength().ConstValue())
+		}
+		if n.Cmp(maxArrayElements) > 0 {
+			return fmt.Errorf("check: array type %q has too many elements", typ.Str(q.tm))
+		}
+	}
 	typ.AsNode().SetMType(typeExprTypeExpr)
 	return nil
 }
+
+// maxArrayElements is the maximum (inclusive) number of elements, including
+// those of nested arrays, of an array type.
+var maxArrayElements = big.NewInt(0x07FF_FFFF_FFFF_FFFF)
 
 func (q *checker) tcheckChoose(n *a.Choose) error {
 	qqid := q.astFunc.QQID()
